@@ -1,7 +1,7 @@
 #!/bin/bash
 # usage: tools/run_all.sh quick|thorough [ids...]  -- run the registered commands one after another, report exit codes and wall time
 tier=$1; shift
-ids=${@:-C01 C02 C03 C04 C05 C07 C08 C09 C10 C11 C12 C13 C14 C15 C16 C17 C18 C19 C20}
+ids=${@:-C01 C02 C03 C04 C05 C06 C07 C08 C09 C10 C11 C12 C13 C14 C15 C16 C17 C18 C19 C20}
 cd "$(dirname "$0")/.."
 for id in $ids; do
   s=$(date +%s)
